@@ -108,7 +108,12 @@ def _sorted_afterwards(b, vec_expr, after_block):
         n = mir.callee_name(t).split("::")[-1]
         if n.startswith("sort") and b.dominates(after_block, bi):
             e = b.rec_call(t, bi)
-            if q.novers(e[2][0]) == q.novers(vec_expr) or sig(q.novers(e[2][0])) in sig(q.novers(vec_expr)) or q.contains(vec_expr, lambda x: False):
+            recv = mir.strip(e[2][0])
+            by_def = False
+            if recv[0] == "var":
+                # the receiver is a variable holding the collected vector (whatever it is called, also inside a spliced helper)
+                by_def = any(q.novers(mir.strip(d[1])) == q.novers(mir.strip(vec_expr)) for d in q.var_def_exprs(b, recv[1]))
+            if by_def or q.novers(e[2][0]) == q.novers(vec_expr) or sig(q.novers(e[2][0])) in sig(q.novers(vec_expr)):
                 sorts.append((bi, t))
     if not sorts:
         return False
